@@ -74,6 +74,25 @@ def units_product(tier):
     return out
 
 
+def floor_product(tier):
+    """a positive constraints.minComposition that the matrix content of one solute crosses during the run (the matrix of the
+    default alloys falls from 0.01 / 0.02 to 4e-4 / 1e-3): the documented clamp applies to NEGATIVE mass-balance values only"""
+    quick = tier == 'quick'
+    levels = {
+        'system': ['bin', 'tern'],
+        'nphases': [1, 2],
+        'it': ['euler', 'rk4'],
+        'floor': [0.005] if quick else [0.005, 0.002, 1e-5],
+        'precdiff': ['inf'] if quick else ['inf', 'none'],
+        'temp': ['iso'] if quick else ['iso', 'hrh'],
+    }
+    out = []
+    for c in _mk(levels, {'tf': 20.0, 'max_steps': 8000}):
+        c['constraints'] = {'dtScale': 0.05, 'minComposition': c.pop('floor')}
+        out.append(c)
+    return out
+
+
 def shape_product(tier):
     quick = tier == 'quick'
     levels = {
